@@ -121,7 +121,7 @@ Proof.
   destruct (is_drained s w).
   { right. destruct HC as [A [B [C [D E]]]]. apply TC_of; [apply (SW_setcall_sync s c _ w); auto|]. apply TC_TR in H. tr_go. }
   pose proof (FC_assign_next c w s HF) as HF1. pose proof (TC_assign_next w s (FC_FI _ _ _ HF) H) as H1.
-  pose proof (ProofsFind.assign_next_none w s (proj1 (proj2 (proj2 (SW_St _ (Ctx_SW _ _ _ HC))))) (proj1 (proj2 (proj2 (proj2 (proj2 H))))) ) as Hnone.
+  pose proof (assign_next_nothing_queued w s (proj1 (proj2 (proj2 (SW_St _ (Ctx_SW _ _ _ HC))))) (proj1 (proj2 (proj2 (proj2 (proj2 H))))) ) as Hnone.
   rewrite (surjective_pairing (assign_next_queued_task w s)). destruct (snd (assign_next_queued_task w s)).
   - destruct H1 as [Hp|H1]; [left; apply Pan_sync_return_exec; exact Hp|right; apply TC_sync_return_exec; [exact (proj1 HF1)|exact H1]].
   - cbv zeta. destruct (k_wait (get_worker s w)); [right; tc_go2|].
